@@ -33,11 +33,11 @@ static int live[3];
 static unit_to_thread *ent(int i) { return (unit_to_thread *)(i == 0 ? &B0.e : i == 1 ? &B1.e : &B2.e); }
 static ABTI_thread *thr(int i) { return i == 0 ? &T0 : i == 1 ? &T1 : &T2; }
 #ifdef PPS
-static int env_done, env_op, env_u;   /* env: map(UY) or unmap(U[env_u]) */
+static int env_done, env_op, env_u, env_closed;   /* env: map(UY) or unmap(U[env_u]); closed once the focus operation has returned */
 void vr_sp(void)
 {
     static int depth;
-    if (env_done || depth) return;
+    if (env_done || depth || env_closed) return;
     if (nondet_bool()) {
         depth = 1; env_done = 1;
 #ifdef ENVOP
@@ -111,6 +111,9 @@ int main(void)
 #ifdef PPS
     if (env_done) VR_WITNESS("lookup overlapped an update of the same bucket");
 #endif
+#endif
+#ifdef PPS
+    env_closed = 1;     /* the checks below are not part of the scenario: a concurrent unmap of the very unit they look up would be a user error */
 #endif
     /* every unit that is live now still translates correctly; the lock is free; no live entry was lost */
     for (int i = 0; i < 3; i++) if (i < NPRE && live[i]) VR_ASSERT(ABTI_unit_get_thread_from_user_defined_unit(&G, i == 0 ? U(0) : i == 1 ? U(1) : U(2)) == thr(i), "other live units unaffected");
